@@ -127,7 +127,7 @@ func genC07(t *rapid.T) progCase {
 }
 
 func TestC07(t *testing.T) {
-	hx.Run(t, hx.Spec[progCase]{Prop: "C07", Core: coreC07, Gen: genC07, Check: checkC07, Timeout: 20 * time.Second})
+	hx.Run(t, hx.Spec[progCase]{Prop: "C07", ClassifyPanic: func(sig string, c progCase) string { return classifyCompilePanic(sig, c) }, Core: coreC07, Gen: genC07, Check: checkC07, Timeout: 20 * time.Second})
 }
 
 var quotedName = regexp.MustCompile(`"[^"]*"`)
